@@ -98,4 +98,8 @@ func (idGenerator *IDGenerator) updateOffset() {
 func (idGenerator *IDGenerator) setOffset(newoffset int64) {
 	idGenerator.offset = newoffset
 	idGenerator.offset = idGenerator.offset % idGenerator.valueRange
+	if idGenerator.offset < 0 {
+		// Go's % keeps the sign of the dividend; a negative offset would yield an id below minValue
+		idGenerator.offset += idGenerator.valueRange
+	}
 }
